@@ -91,12 +91,17 @@ def gen_project(rng) -> Tuple[List[Unit], Dict[str, Any]]:
         if form in ("reexporter", "both"):
             lines.append("from %s import %s as XR" % (reexp_q, exported))
             local.append("XR")
+        # sometimes the re-exporting module is also reached through a module alias: `t.X`
+        via_alias = rng.random() < 0.4
+        if via_alias:
+            lines.append("import %s as t_%s" % (reexp_q, cname))
         use = local[0]
         if objkind == "class":
             lines += ["class K_%s(%s):" % (cname, use), "    '''see L{%s} and L{pkg._b.X} and L{%s.%s}'''" % (use, reexp_q, exported)]
         lines += ["v_%s: %s = None" % (cname, local[-1]), "'''var'''"]
         sibs.append(Unit("pkg." + cname, False, "\n".join(lines) + "\n", "pkg"))
-        consumers.append({"module": "pkg." + cname, "form": form, "locals": local, "use": use, "cname": cname})
+        consumers.append({"module": "pkg." + cname, "form": form, "locals": local, "use": use, "cname": cname,
+                          "alias": ("t_%s.%s" % (cname, exported)) if via_alias else None})
     meta = {"kind": kind, "import": imp, "objkind": objkind, "exported": exported, "reexporter": reexp_q,
             "definer_all": b_all, "consumers": consumers, "imported_twice": twice}
     return [units[0]] + sibs, meta
@@ -191,6 +196,16 @@ def check_one(ctx: Ctx, units: List[Unit], meta, order: List[int], reqs, impls, 
             if r is not obj:
                 ctx.fail(f"consumer-import-from-{how}:unresolved", payload,
                          f"{c['module']}.resolveName({ln!r}) = {r!r}, expected {obj!r} (order {order})")
+        if c.get("alias"):
+            r = mod.resolveName(c["alias"])
+            if r is not obj:
+                ctx.fail("module-alias-to-reexporter:unresolved", payload,
+                         f"{c['module']}.resolveName({c['alias']!r}) = {r!r}, expected {obj!r} (order {order})")
+        # the re-exporting module itself names the object
+        rm = system.allobjects.get(meta["reexporter"])
+        if rm is not None and rm.resolveName(meta["exported"]) is not obj:
+            ctx.fail("reexporter-own-scope:unresolved", payload,
+                     f"{meta['reexporter']}.resolveName({meta['exported']!r}) = {rm.resolveName(meta['exported'])!r}, expected {obj!r}")
         if meta["objkind"] == "class":
             k = system.allobjects.get(c["module"] + ".K_" + c["cname"])
             if k is None or list(k.baseobjects) != [obj]:
@@ -228,7 +243,7 @@ def check_one(ctx: Ctx, units: List[Unit], meta, order: List[int], reqs, impls, 
     queries, answers = [], []
     for c in meta["consumers"]:
         mod = system.allobjects[c["module"]]
-        for ln in c["locals"] + ["pkg._b.X", new_name, "pkg._b.Other", "nosuch.name", ln_or("XD", c)]:
+        for ln in c["locals"] + ["pkg._b.X", new_name, "pkg._b.Other", "nosuch.name", ln_or("XD", c)] + ([c["alias"]] if c.get("alias") else []):
             queries.append("E|%d|%s" % (ids[id(mod)], enc(ln)))
             answers.append(nd.real_expand(mod, ln))
             queries.append("R|%d|%s" % (ids[id(mod)], enc(ln)))
